@@ -112,11 +112,20 @@ func (p *parser) parse() ([]sourceLine, WarriorData, error) {
 }
 
 func (p *parser) validateSymbols() error {
+	// report the first undefined symbol of the text, whatever the map order
+	found := false
+	var firstSymbol string
+	var firstLine int
 	for symbol, i := range p.references {
 		_, ok := p.symbols[symbol]
 		if !ok {
-			return fmt.Errorf("line %d: symbol '%s' undefined", i, symbol)
+			if !found || i < firstLine || (i == firstLine && symbol < firstSymbol) {
+				found, firstSymbol, firstLine = true, symbol, i
+			}
 		}
+	}
+	if found {
+		return fmt.Errorf("line %d: symbol '%s' undefined", firstLine, firstSymbol)
 	}
 	return nil
 }
